@@ -40,7 +40,8 @@ CHECKS = {
              "removes exactly the below-threshold models otherwise; an SMM step that closes leaves exactly one model; the mixture covariance is "
              "symmetric PSD; hand-back with one survivor is that model. Tied to the code by running the real StaticMultipleModel/GPB1 objects on "
              "scripted member filters (2-30 models, underflow patterns) against the model."
-             " Cases include states at orbital magnitudes with metre-level covariances (compared on the covariance's own scale), steps without observations, and an independent check of the GPB1 mixing with the filter's own mix_ratio.",
+             " Cases include states at orbital magnitudes with metre-level covariances (compared on the covariance's own scale), steps without observations, and an independent check of the GPB1 mixing with the filter's own mix_ratio."
+             " A second multiple-model filter is updated right after the first at every step (what the first holds must not change).",
         note=BASE_TB + "Gaussian likelihood values and the chi-square gate bound are oracle inputs computed independently by the harness; member filters are scripted stand-ins.",
         technique="Lean 4 proof over executable model + differential correspondence with the real adaptive filters",
         ref="5/C18",
@@ -112,7 +113,8 @@ CHECKS = {
              "step, on a boundary or a hair beside one. Witness theorems record the unrepaired window gap, instance filter and double application, "
              "and that coincident impulses lose one. Tied to the code by bit-exact comparison of the windows the real stepForward computes, delivery "
              "runs against a real in-memory database (instance ids 0, 1, 2: id 0 is legal), an in-process pipeline of the real query/handleEvent/prune/TwoBody.propagate code, "
-             "and impulses driven through a real Scenario (two targets, several impulses in different steps) against Kepler arcs joined by the impulses.",
+             "and impulses driven through a real Scenario (two targets, several impulses in different steps) against Kepler arcs joined by the impulses."
+             " Two manoeuvre events of one target inside one step, an impulse right after an expired finite burn, and an impulse on a target that joins in the same step are run through real scenarios, each against the same scenario without that impulse.",
         note=BASE_TB + "scipy's event location is modelled by its documented rule and exercised on every impulse case; strict monotonicity of "
              "datetimeToJulianDate is a hypothesis here (C05) and checked bit-exactly on every generated window; events at/before the start are outside the property.",
         technique="Lean 4 proof (tiling over a monotone map, induction over steps) + bit-exact window correspondence + differential delivery/impulse pipeline on the real code",
@@ -126,7 +128,8 @@ CHECKS = {
              "witness theorem records the unrepaired count comparison. Tied to the code by running the real EphemerisImporter and "
              "loadImportedObservations/_attachObsMetadata on real SQLite importer files built per case (supersets, subsets, gaps, unrelated agents "
              "hiding a missing one, duplicate observations), with SHA-256 of the file before and after."
-             " Importer databases carry Julian dates either converted from the time stamp or as a running scenario writes them (start date plus elapsed seconds), which differ in the last bit at a third of the minutes.",
+             " Importer databases carry Julian dates either converted from the time stamp or as a running scenario writes them (start date plus elapsed seconds), which differ in the last bit at a third of the minutes."
+             " The engine's own step is run with imported observations only, epoch after epoch, and the agent factories are asked for every combination of the two realtime flags.",
         note=BASE_TB + "SQLAlchemy/SQLite return what was stored; agents are stand-ins whose importState is the real TargetAgent.importState; the path from the "
              "engine's observation list to the filter update is covered by C08/C09, not here.",
         technique="Lean 4 proof (invariant over the import loop) + differential correspondence on real importer database files",
@@ -140,7 +143,8 @@ CHECKS = {
              "form PSD whenever prior and noise are. Tied to the code by running the real UnscentedKalmanFilter on mock linear dynamics/measurements "
              "(1-8 states, stacked observations incl. totals equal to 2n+1, four tunings, multi-step observed/unobserved/forecast-then-missed patterns) against "
              "the executable model and an exact rational Kalman filter."
-             " The hand-back of prediction, forecast and update through their result objects runs in fresh interpreters, once with a forecast result applied first and once with an update result first.",
+             " The hand-back of prediction, forecast and update through their result objects runs in fresh interpreters, once with a forecast result applied first and once with an update result first."
+             " A second filter of the same dimensions is stepped alongside (all predictions, then all updates).",
         note=BASE_TB + "numpy cholesky/inv/sqrt are oracle inputs; tolerances scale with the measured conditioning of the exact reference (capped at 1e-4); the list-matrix "
              "executable model and the Mathlib statements are the same formulas written twice.",
         technique="Lean 4 proof (matrix algebra) + differential correspondence with the real UKF on linear systems against an exact Kalman filter",
@@ -155,7 +159,8 @@ CHECKS = {
              "all four policies, displaced truths, slow sensors, narrow fields of view, jobs that return a hit and a miss together) in which the harness chooses the order JobExecutor.join processes finished "
              "jobs (FIFO, LIFO, seeded random): visibility/reward/decision matrices, observations, misses, pointing state, estimates, truths and stored rows are "
              "compared bit for bit across orders, and the processed job sequence of every step is replayed through the model."
-             " Cases include serendipitous observations with wide cones (a target reported by several jobs of one sensor in a step) and an agent with id 0; handed_list_order_independent proves that with the engine's list kept sorted every filter is handed the same list, in the same places, for every completion order.",
+             " Cases include serendipitous observations with wide cones (a target reported by several jobs of one sensor in a step) and an agent with id 0; handed_list_order_independent proves that with the engine's list kept sorted every filter is handed the same list, in the same places, for every completion order."
+             " Steps go through the real propagateTo (which writes the database), the output cadence varies, and every record a step produced must be stored when the run ends on a save.",
         note=BASE_TB + "Ray copies objects to workers and ray.wait is complete (only the processing order is chosen); the guarded hook seeds a task job's measurement "
              "noise from the job so that noise does not depend on the worker process; all four decision policies are exercised; with AllVisibleDecision (advanced radars only) several jobs of a step report the same sensor and the model's rule (the report of the highest target id) is compared with the sensor's actual end-of-step state.",
         technique="Lean 4 proof (commutativity + induction over permutations) + real Ray runs under harness-chosen completion orders",
@@ -170,7 +175,8 @@ CHECKS = {
              "whatever else is queued (each_burn_own_duration: each is on for its own end - start); slot_witnesses records what a _prepEvents that clears the "
              "slot for burns not under way does. Tied to the code by comparing, call by call, every thrust callback (burn, time, installed/removed) and the "
              "slot at the end of the call of the real SpecialPerturbations/TwoBody propagators (real event classes, real prune rule, one or two burns per agent) "
-             "with the model's timeline, and the final state with an independent coast/thrust/coast(/thrust/coast) integration (the property itself).",
+             "with the model's timeline, and the final state with an independent coast/thrust/coast(/thrust/coast) integration (the property itself)."
+             " The reference trajectory takes the natural forces from the model and evaluates the thrust itself from its documented definition (NTW axes from r and v), with magnitudes and components that vary from case to case; burns enter through the real data-event handleEvent; a coasting companion shares the dynamics object.",
         note=BASE_TB + "scipy's terminal-event location is the abstract integrator (an event fires at its root); trajectory equality is numerical, against a reference "
              "integration with the same tolerances; boundaries within 1e-9 s before the end are excluded (the callback's tolerance).",
         technique="Lean 4 proof (per-call overlap + telescoping) + differential correspondence of callback times + reference-trajectory oracle",
@@ -184,7 +190,8 @@ CHECKS = {
              "or several consecutive calls give the same database; a witness theorem records the unrepaired dangling rows. Tied to the code by real scenarios on real "
              "Ray whose SQLite file is audited with SQL (uniqueness, anti-joins for every epoch and agent reference in seven tables, per-epoch counts, timestamp vs "
              "Julian date, read-back equality with the live objects) and compared with the model's predicted tables; atomicity by fault injection in bulk saves of 4, 700 and 1500 rows; scenarios include a target joining and a target leaving at run time."
-             " Output steps of 3-5 physics steps with the configured stop inside a save interval and the run going past it are included.",
+             " Output steps of 3-5 physics steps with the configured stop inside a save interval and the run going past it are included."
+             " A target tracked by two engines and manoeuvre detections between two saves are included; every table is audited for rows identical in every column.",
         note=BASE_TB + "SQLAlchemy/SQLite transaction semantics are exercised (a failing row in a bulk save), not proved; states are abstracted to row identities in the model.",
         technique="Lean 4 proof (invariant by induction over steps) + SQL audit of real output databases compared with the model",
         ref="5/C09",
@@ -197,7 +204,8 @@ CHECKS = {
              "other agents are irrelevant; one call or consecutive calls are the same fold. Tied to the code by pairs of real runs on real Ray compared BIT FOR BIT on every "
              "truth state per step and on the stored truth rows: truth-only, other policies, other noise seed, output every second step, uneven propagateTo splits, permuted "
              "completions, extra/fewer targets, the first target dropped, targets in reverse order, an extra sensor; two-body and perturbed truth, with an NTW impulse; targets of "
-             "different mass and area with radiation pressure on; once per scenario one variant runs in a fresh interpreter, so that nothing the process built earlier can mask a dependence.",
+             "different mass and area with radiation pressure on; once per scenario one variant runs in a fresh interpreter, so that nothing the process built earlier can mask a dependence."
+             " A variant has an agent fly under the id of a late joiner, leave, and the id be used again.",
         note=BASE_TB + "that the real step has the modelled structure (the truth update reads nothing but truth) is exactly what the bit-for-bit pairs test; Ray's worker isolation is assumed and exercised.",
         technique="Lean 4 proof (non-interference by induction, order independence) + bit-for-bit differential runs of real scenario pairs",
         ref="5/C10",
@@ -210,7 +218,8 @@ CHECKS = {
              "Radar/AdvRadar/Optical collectObservations on ground and space hosts and comparing outcome and reason with the cascade fed by an INDEPENDENT evaluation of each "
              "constraint (vector geometry for line of sight, atan2 angles for both field-of-view shapes across the north seam, masks incl. wrapping ones, range limits, slew budget, "
              "limb cone), plus the reported measurement against plain trigonometry on the slant-range vector (noise-free equality, 6.5 sigma with noise)."
-             " A real scenario with a slow mount and geostationary targets further apart than one step's slew budget is run as well: reachability is judged on the history of reported observations alone; optical cases at the edge of the Earth's shadow hold equal-size serendipitous targets on both sides of it.",
+             " A real scenario with a slow mount and geostationary targets further apart than one step's slew budget is run as well: reachability is judged on the history of reported observations alone; optical cases at the edge of the Earth's shadow hold equal-size serendipitous targets on both sides of it."
+             " A sensor with a correlated stated noise is sampled 1500 times and the draws whitened with the stated covariance.",
         note=BASE_TB + "photometric constraints (solar flux, visual magnitude, galactic exclusion, lighting) and the radar range equation are evaluated with the code's own helpers: "
              "their place in the cascade is checked, their physics is not re-derived; cases with a deciding constraint within 1e-9 of its boundary are skipped and counted.",
         technique="Lean 4 proof over an executable cascade model + differential correspondence against an independent geometric evaluation",
@@ -245,7 +254,8 @@ CHECKS = {
              "epoch expression bit for bit) and by the metamorphic relations evaluated on the real integrators: split vs whole, batch (C, Fortran, transposed-view, strided "
              "layouts) vs single, bulk vs single, two-body vs closed-form Kepler, energy and angular momentum drift, epoch shift across midnight and year ends incl. the force at "
              "one instant described both ways."
-             " Batches also mix a low-orbit member (in and out of the Earth's shadow) with always-lit high ones under radiation pressure, so that a quantity computed once per batch instead of once per member shows.",
+             " Batches also mix a low-orbit member (in and out of the Earth's shadow) with always-lit high ones under radiation pressure, so that a quantity computed once per batch instead of once per member shows."
+             " The final output of propagateBulk is held to 1e-8 km against a separate call (the same integration), and a day-long arc with Sun and Moon is split after a third.",
         note=BASE_TB + "scipy solve_ivp is assumed to approximate a lawful flow within its tolerances: real trajectories are compared to 3e-4 km / 3e-7 km/s per revolution "
              "(epoch-split: 2e-6 km, 1e-3 km with radiation pressure because of the shadow-boundary kink); the loop restarts one ulp after an event, the model at the event time; "
              "convergence of the universal-variable iteration is exercised on the real code only.",
